@@ -361,3 +361,31 @@ Print Assumptions C05_str_eq_slice.
 Print Assumptions C05_reader_eq_slice.
 Print Assumptions C05_total.
 Print Assumptions C05_swar.
+From Coq Require Import String.
+From SJ Require Import Base.Bytes Gen.Tables Model.Read Model.Str Model.StrAst Gen.StrTables Proofs.StrSrc.
+Require Import Lia ZifyBool ZifyNat ZifyN.
+From SJ Require Import Proofs.StrSrc2.
+Theorem C05_escape_decoding_is_source : forall (E : env) (v : bool) (s : st) (buf : bytes) (fuel mfuel : nat),
+  (* push_wtf8_codepoint(n, scratch) *)
+  (forall n : N, (3 <= fuel)%nat ->
+     run_str fuel E v STR_PROG "push_wtf8_codepoint" [(U32, Z.of_N n)] s buf = let* w := push_wtf8 n in Ok (RvUnit, buf ++ w, s)) /\
+  (* the statics HEX0 / HEX1, as built by build_hex_table from decode_hex_val_slow *)
+  STR_HEX_SLOW = map (fun '(lo, hi, add) => (Z.of_N lo, Z.of_N hi, Z.of_N lo, Z.of_N add)) HEX_RANGES /\
+  (forall a : N, (a < 256)%N ->
+     static_get STR_PROG "HEX0" (Z.of_N a) = Ok (I16, hex_tab 0 a) /\ static_get STR_PROG "HEX1" (Z.of_N a) = Ok (I16, hex_tab 4 a)) /\
+  (* decode_four_hex_digits(a, b, c, d) *)
+  (forall a b c d : N, (a < 256)%N -> (b < 256)%N -> (c < 256)%N -> (d < 256)%N -> (2 <= fuel)%nat ->
+     run_str fuel E v STR_PROG "decode_four_hex_digits" [(U8, Z.of_N a); (U8, Z.of_N b); (U8, Z.of_N c); (U8, Z.of_N d)] s buf =
+     Ok (RvOpt (option_map (fun n => (U16, Z.of_N n)) (decode_four_hex a b c d)), buf, s)) /\
+  (* ignore_escape(read) *)
+  ((3 <= fuel)%nat ->
+     run_str fuel E v STR_PROG "ignore_escape" [] s buf = let* s' := ignore_escape E s in Ok (RvUnit, buf, s')) /\
+  (* parse_escape(read, validate, scratch) *)
+  ((length (rest s) + 16 <= fuel)%nat -> (length (rest s) + 1 <= mfuel)%nat ->
+     run_str fuel E v STR_PROG "parse_escape" [] s buf = lift_app buf (parse_escape mfuel E v s)) /\
+  (* parse_unicode_escape(read, validate, scratch) *)
+  ((length (rest s) + 14 <= fuel)%nat -> (length (rest s) + 1 <= mfuel)%nat ->
+     run_str fuel E v STR_PROG "parse_unicode_escape" [] s buf = lift_app buf (parse_unicode_escape mfuel E v s)).
+Proof. exact (@StrSrc2.escape_decoding_is_translated_source). Qed.
+Print Assumptions C05_escape_decoding_is_source.
+
